@@ -1,4 +1,336 @@
 /- Helper lemmas for C11 / C18 (single Mathlib modules may be imported; never `import Mathlib`). -/
 import KfacVerif.Model.NeoxLayer
 import KfacVerif.Model.Neox
+import Mathlib.Tactic.Ring
+import Mathlib.Tactic.FieldSimp
+import Mathlib.Algebra.Order.Field.Basic
 
+namespace KV.NeoxL
+
+/-! ### chunking a list -/
+
+theorem flatten_chunks {α : Type} (l : List α) (k m : Nat) :
+    ((List.range m).map fun i => (l.drop (i * k)).take k).flatten = l.take (m * k) := by
+  induction m with
+  | zero => simp
+  | succ m ih =>
+    rw [List.range_succ, List.map_append, List.flatten_append, ih, Nat.succ_mul, List.take_add]
+    simp
+
+theorem flatten_chunks_all {α : Type} (l : List α) (k m : Nat) (h : l.length = m * k) :
+    ((List.range m).map fun i => (l.drop (i * k)).take k).flatten = l := by
+  rw [flatten_chunks, ← h, List.take_length]
+
+theorem chunk_flatten {α : Type} (parts : List (List α)) (k : Nat) (hp : ∀ p ∈ parts, p.length = k)
+    (i : Nat) (hi : i < parts.length) :
+    (parts.flatten.drop (i * k)).take k = parts[i] := by
+  induction parts generalizing i with
+  | nil => simp at hi
+  | cons p ps ih =>
+    have hpl : p.length = k := hp p (by simp)
+    cases i with
+    | zero =>
+      simp only [List.flatten_cons, Nat.zero_mul, List.drop_zero, List.getElem_cons_zero]
+      rw [← hpl, List.take_left]
+    | succ i =>
+      have e : (i + 1) * k = p.length + i * k := by rw [hpl, Nat.succ_mul, Nat.add_comm]
+      simp only [List.flatten_cons, List.getElem_cons_succ]
+      rw [e, ← List.drop_drop, List.drop_left]
+      exact ih (fun q hq => hp q (by simp [hq])) i (by simpa using hi)
+
+theorem length_flatten_const {α : Type} (parts : List (List α)) (k : Nat) (hp : ∀ p ∈ parts, p.length = k) :
+    parts.flatten.length = parts.length * k := by
+  induction parts with
+  | nil => simp
+  | cons p ps ih =>
+    simp only [List.flatten_cons, List.length_append, List.length_cons]
+    rw [ih (fun q hq => hp q (by simp [hq])), hp p (by simp), Nat.succ_mul, Nat.add_comm]
+
+/-! ### rows -/
+
+theorem gather_split_rows_l (mp : Nat) (A : Mat) (_h1 : 0 < mp) (h2 : mp ∣ A.length) :
+    gatherRows (splitRows mp A) = A := by
+  unfold gatherRows splitRows
+  apply flatten_chunks_all
+  exact (Nat.mul_div_cancel' h2).symm
+
+theorem split_gather_rows_l (mp k : Nat) (parts : List Mat) (hl : parts.length = mp) (_hk : 0 < k)
+    (hp : ∀ p ∈ parts, p.length = k) : splitRows mp (gatherRows parts) = parts := by
+  unfold gatherRows splitRows
+  have hlen := length_flatten_const parts k hp
+  rcases Nat.eq_zero_or_pos mp with h0 | hpos
+  · subst h0
+    have : parts = [] := List.length_eq_zero_iff.mp hl
+    subst this; simp
+  · have hk' : parts.flatten.length / mp = k := by
+      rw [hlen, hl, Nat.mul_div_cancel_left _ hpos]
+    simp only [hk']
+    apply List.ext_getElem
+    · simp [hl]
+    · intro i h1 h2
+      simp only [List.getElem_map, List.getElem_range]
+      exact chunk_flatten parts k hp i h2
+
+/-! ### columns -/
+
+theorem getD_map_of_lt {α β : Type} (f : α → β) (l : List α) (i : Nat) (d : β) (h : i < l.length) :
+    (l.map f).getD i d = f l[i] := by
+  simp [List.getD_eq_getElem?_getD, List.getElem?_eq_getElem h]
+
+theorem getD_of_lt {α : Type} (l : List α) (i : Nat) (d : α) (h : i < l.length) :
+    l.getD i d = l[i] := by
+  simp [List.getD_eq_getElem?_getD, List.getElem?_eq_getElem h]
+
+theorem gather_split_cols_l (mp cols : Nat) (A : Mat) (_h1 : 0 < mp) (h2 : mp ∣ cols)
+    (h3 : ∀ r ∈ A, r.length = cols) : gatherCols A.length (splitCols mp cols A) = A := by
+  unfold gatherCols splitCols
+  apply List.ext_getElem
+  · simp
+  · intro i h1 h2'
+    simp only [List.getElem_map, List.getElem_range, List.map_map]
+    have : ((fun p : Mat => p.getD i []) ∘ fun j => A.map fun r => (r.drop (j * (cols / mp))).take (cols / mp))
+        = fun j => (A[i].drop (j * (cols / mp))).take (cols / mp) := by
+      funext j
+      simp only [Function.comp]
+      exact getD_map_of_lt _ A i [] h2'
+    rw [this]
+    apply flatten_chunks_all
+    rw [h3 _ (List.getElem_mem h2')]
+    exact (Nat.mul_div_cancel' h2).symm
+
+theorem split_gather_cols_l (mp k rows : Nat) (parts : List Mat) (hl : parts.length = mp) (_hk : 0 < k)
+    (hp : ∀ p ∈ parts, p.length = rows ∧ ∀ r ∈ p, r.length = k) :
+    splitCols mp (mp * k) (gatherCols rows parts) = parts := by
+  unfold gatherCols splitCols
+  rcases Nat.eq_zero_or_pos mp with h0 | hpos
+  · subst h0
+    have : parts = [] := List.length_eq_zero_iff.mp hl
+    subst this; simp
+  · rw [Nat.mul_div_cancel_left _ hpos]
+    apply List.ext_getElem
+    · simp [hl]
+    · intro j h1 h2
+      simp only [List.getElem_map, List.getElem_range, List.map_map]
+      have hpj := hp _ (List.getElem_mem h2)
+      apply List.ext_getElem
+      · simp [hpj.1]
+      · intro i hi1 hi2
+        simp only [List.getElem_map, List.getElem_range, Function.comp]
+        have hir : i < rows := by simpa using hi1
+        have hall : ∀ q ∈ parts.map (fun p : Mat => p.getD i []), q.length = k := by
+          intro q hq
+          rcases List.mem_map.mp hq with ⟨p, hpm, rfl⟩
+          have hpp := hp p hpm
+          rw [getD_of_lt p i [] (by rw [hpp.1]; exact hir)]
+          exact hpp.2 _ (List.getElem_mem _)
+        rw [chunk_flatten _ k hall j (by simpa using h2)]
+        simp only [List.getElem_map]
+        exact getD_of_lt _ i [] hi2
+
+/-! ### scatter emulated by reduce_scatter -/
+
+theorem zipWith_add_zero_right (r : List Rat) : List.zipWith (· + ·) r (r.map fun _ => (0 : Rat)) = r := by
+  induction r with
+  | nil => rfl
+  | cons a t ih => simp only [List.map_cons, List.zipWith_cons_cons, ih, Rat.add_zero]
+
+theorem zipWith_add_zero_left (r : List Rat) : List.zipWith (· + ·) (r.map fun _ => (0 : Rat)) r = r := by
+  induction r with
+  | nil => rfl
+  | cons a t ih => simp only [List.map_cons, List.zipWith_cons_cons, ih, Rat.zero_add]
+
+theorem zipWith_add_zero_zero (r : List Rat) :
+    List.zipWith (· + ·) (r.map fun _ => (0 : Rat)) (r.map fun _ => (0 : Rat)) = r.map fun _ => (0 : Rat) := by
+  induction r with
+  | nil => rfl
+  | cons a t ih => simp only [List.map_cons, List.zipWith_cons_cons, ih, Rat.add_zero]
+
+theorem matAdd_zeros_right (X : Mat) : matAdd X (zerosLike X) = X := by
+  unfold matAdd zerosLike
+  induction X with
+  | nil => rfl
+  | cons a t ih => simp only [List.map_cons, List.zipWith_cons_cons, ih, zipWith_add_zero_right]
+
+theorem matAdd_zeros_left (X : Mat) : matAdd (zerosLike X) X = X := by
+  unfold matAdd zerosLike
+  induction X with
+  | nil => rfl
+  | cons a t ih => simp only [List.map_cons, List.zipWith_cons_cons, ih, zipWith_add_zero_left]
+
+theorem matAdd_zeros_zeros (X : Mat) : matAdd (zerosLike X) (zerosLike X) = zerosLike X := by
+  unfold matAdd zerosLike
+  induction X with
+  | nil => rfl
+  | cons a t ih => simp only [List.map_cons, List.zipWith_cons_cons, ih, zipWith_add_zero_zero]
+
+theorem foldl_matAdd_const (X Z : Mat) (hXZ : matAdd X Z = X) (B : List Mat) (hB : ∀ y ∈ B, y = Z) :
+    B.foldl matAdd X = X := by
+  induction B with
+  | nil => rfl
+  | cons b t ih =>
+    rw [List.foldl_cons, hB b (by simp), hXZ]
+    exact ih (fun y hy => hB y (by simp [hy]))
+
+theorem fold_one (S Z : Mat) (hSZ : matAdd S Z = S) (hZS : matAdd Z S = S) (hZZ : matAdd Z Z = Z)
+    (A B : List Mat) (hA : ∀ y ∈ A, y = Z) (hB : ∀ y ∈ B, y = Z) :
+    (match A ++ S :: B with | [] => [] | x :: t => t.foldl matAdd x) = S := by
+  cases A with
+  | nil => exact foldl_matAdd_const S Z hSZ B hB
+  | cons a A' =>
+    simp only [List.cons_append]
+    rw [hA a (by simp), List.foldl_append, foldl_matAdd_const Z Z hZZ A' (fun y hy => hA y (by simp [hy])),
+      List.foldl_cons, hZS]
+    exact foldl_matAdd_const S Z hSZ B hB
+
+theorem scatter_is_shard_l (mp primary i : Nat) (shards : List Mat) (hp : primary < mp) (hi : i < shards.length) :
+    scatterFrom mp primary shards i = shards.getD i [] := by
+  unfold scatterFrom reduceScatter
+  rw [List.map_map]
+  have hf : ((fun l : List Mat => l.getD i []) ∘ fun r => if r == primary then shards else shards.map zerosLike)
+      = fun r => if r = primary then shards.getD i [] else zerosLike (shards.getD i []) := by
+    funext r
+    simp only [Function.comp]
+    by_cases h : r = primary
+    · simp [h]
+    · simp only [beq_iff_eq, h, if_false]
+      rw [getD_map_of_lt _ _ _ _ hi, getD_of_lt _ _ _ hi]
+  rw [hf]
+  obtain ⟨n, rfl⟩ : ∃ n, mp = primary + (n + 1) := ⟨mp - primary - 1, by omega⟩
+  rw [List.range_add, List.map_append, List.range_succ_eq_map, List.map_cons, List.map_cons]
+  simp only [Nat.add_zero, if_true]
+  apply fold_one _ _ (matAdd_zeros_right _) (matAdd_zeros_left _) (matAdd_zeros_zeros _)
+  · intro y hy
+    rcases List.mem_map.mp hy with ⟨r, hr, rfl⟩
+    have : r < primary := List.mem_range.mp hr
+    rw [if_neg (by omega)]
+  · intro y hy
+    simp only [List.map_map, List.mem_map, Function.comp] at hy
+    rcases hy with ⟨r, _, rfl⟩
+    rw [if_neg (by omega)]
+
+/-! ### end to end -/
+
+theorem length_splitRows (mp : Nat) (W : Mat) : (splitRows mp W).length = mp := by simp [splitRows]
+theorem length_splitCols (mp c : Nat) (W : Mat) : (splitCols mp c W).length = mp := by simp [splitCols]
+
+theorem shard_of_precond_l (par : Par) (mp primary i rows wcols : Nat) (w : List Mat)
+    (b : Option (List (List Rat))) (P : Mat → Mat) (_hmp : 0 < mp) (hp : primary < mp) (hi : i < mp) :
+    neoxPrecond par mp primary rows wcols w b P i =
+      shardOf par mp b.isSome wcols (P (gatherCombined par rows w b primary)) i := by
+  unfold neoxPrecond shardOf
+  generalize P (gatherCombined par rows w b primary) = V
+  by_cases h1 : mp = 1
+  · subst h1
+    have : i = 0 := by omega
+    subst this
+    cases par <;> cases b <;> simp
+  · have hne : (mp == 1) = false := by simp [h1]
+    simp only [hne]
+    have hR : ∀ W, scatterFrom mp primary (splitRows mp W) i = (splitRows mp W).getD i [] :=
+      fun W => scatter_is_shard_l mp primary i _ hp (by rw [length_splitRows]; exact hi)
+    have hC : ∀ W, scatterFrom mp primary (splitCols mp wcols W) i = (splitCols mp wcols W).getD i [] :=
+      fun W => scatter_is_shard_l mp primary i _ hp (by rw [length_splitCols]; exact hi)
+    have hB : ∀ (bias : List Rat) (k : Nat),
+        (scatterFrom mp primary ((List.range mp).map fun j => [(bias.drop (j * k)).take k]) i).getD 0 []
+          = (bias.drop (i * k)).take k := by
+      intro bias k
+      rw [scatter_is_shard_l mp primary i _ hp (by simpa using hi),
+        getD_map_of_lt _ _ _ _ (by simpa using hi)]
+      simp
+    cases par with
+    | row => cases b <;> simp [hC]
+    | col =>
+      cases b with
+      | none => simp [hR]
+      | some bs =>
+        simp only [hR, hB]
+        simp
+
+theorem factor_shapes_unsharded_l (mp fullIn fullOut : Nat) (hasBias : Bool) (_hmp : 0 < mp)
+    (hin : mp ∣ fullIn) (hout : mp ∣ fullOut) :
+    aDim .row mp (fullIn / mp) hasBias = fullIn + (if hasBias then 1 else 0) ∧
+    gDim .row mp fullOut = fullOut ∧
+    aDim .col mp fullIn hasBias = fullIn + (if hasBias then 1 else 0) ∧
+    gDim .col mp (fullOut / mp) = fullOut := by
+  simp only [aDim, gDim, Nat.div_mul_cancel hin, Nat.div_mul_cancel hout, and_self]
+
+/-! ### replicated mean -/
+
+theorem foldl_add_init (l : List Rat) (a : Rat) : l.foldl (· + ·) a = a + l.foldl (· + ·) 0 := by
+  induction l generalizing a with
+  | nil => simp
+  | cons c t ih =>
+    simp only [List.foldl_cons]
+    rw [ih (a + c), ih (0 + c)]
+    ring
+
+theorem foldl_rep (c a : Rat) (m : Nat) :
+    ((List.range m).map fun _ => c).foldl (· + ·) a = a + (m : Rat) * c := by
+  induction m with
+  | zero => simp
+  | succ m ih =>
+    rw [List.range_succ, List.map_append, List.foldl_append, ih]
+    simp only [List.map_cons, List.map_nil, List.foldl_cons, List.foldl_nil]
+    push_cast
+    ring
+
+theorem foldl_flatMap_rep (x : Nat → Rat) (mp : Nat) (L : List Nat) (a : Rat) :
+    (L.flatMap fun d => (List.range mp).map fun _ => x d).foldl (· + ·) a
+      = a + (mp : Rat) * (L.map x).foldl (· + ·) 0 := by
+  induction L generalizing a with
+  | nil => simp
+  | cons d t ih =>
+    rw [List.flatMap_cons, List.foldl_append, foldl_rep, ih, List.map_cons, List.foldl_cons,
+      foldl_add_init (t.map x) (0 + x d)]
+    ring
+
+theorem replicated_mean_l (dp mp : Nat) (hdp : 0 < dp) (hmp : 0 < mp) (x : Nat → Rat) :
+    (((List.range dp).flatMap fun d => (List.range mp).map fun _ => x d).foldl (· + ·) 0) / ((dp * mp : Nat) : Rat)
+      = (((List.range dp).map x).foldl (· + ·) 0) / (dp : Rat) := by
+  rw [foldl_flatMap_rep]
+  have h1 : (dp : Rat) ≠ 0 := by exact_mod_cast (Nat.pos_iff_ne_zero.mp hdp)
+  have h2 : (mp : Rat) ≠ 0 := by exact_mod_cast (Nat.pos_iff_ne_zero.mp hmp)
+  push_cast
+  field_simp
+  ring
+
+/-! ### checkpoints -/
+
+theorem nodup_eraseDups {α : Type} [BEq α] [LawfulBEq α] (l : List α) : l.eraseDups.Nodup := by
+  match l with
+  | [] => simp
+  | a :: as =>
+    rw [List.eraseDups_cons, List.nodup_cons]
+    have : (as.filter fun b => !b == a).length < as.length + 1 :=
+      Nat.lt_succ_of_le (List.length_filter_le _ as)
+    exact ⟨by simp [List.mem_eraseDups, List.mem_filter], nodup_eraseDups _⟩
+termination_by l.length
+
+theorem mem_partition (layersOf : Nat → List String) (inv : String → Nat) (r : Nat) (n : String) :
+    n ∈ partition layersOf inv r ↔ n ∈ layersOf r ∧ inv n = r := by
+  simp [partition, List.mem_filter]
+
+theorem mem_restores (layersOf : Nat → List String) (fw : Nat → String → Nat) (r : Nat) (n : String) :
+    n ∈ restores layersOf fw r ↔ n ∈ layersOf r ∧ fw r n = r := by
+  simp [restores, List.mem_filter]
+
+theorem restores_all (layersOf : Nat → List String) (fw : Nat → String → Nat) (r : Nat)
+    (hfw : ∀ n, fw r n = r) : restores layersOf fw r = layersOf r := by
+  simp [restores, hfw]
+
+theorem gather_complete_l (world : Nat) (layersOf : Nat → List String) (inv : String → Nat)
+    (h : ∀ r n, r < world → n ∈ layersOf r → inv n < world ∧ n ∈ layersOf (inv n)) (n : String) :
+    n ∈ merged world layersOf inv ↔ ∃ r, r < world ∧ n ∈ layersOf r := by
+  unfold merged
+  rw [List.mem_eraseDups, List.mem_flatMap]
+  constructor
+  · rintro ⟨r, hr, hn⟩
+    exact ⟨r, List.mem_range.mp hr, ((mem_partition _ _ _ _).mp hn).1⟩
+  · rintro ⟨r, hr, hn⟩
+    have := h r n hr hn
+    exact ⟨inv n, List.mem_range.mpr this.1, (mem_partition _ _ _ _).mpr ⟨this.2, rfl⟩⟩
+
+theorem gather_once_l (world : Nat) (layersOf : Nat → List String) (inv : String → Nat) :
+    (merged world layersOf inv).Nodup := nodup_eraseDups _
+
+end KV.NeoxL
